@@ -10,7 +10,9 @@ fn main() {
         eprintln!("usage: sdmmc-mc <Cxx> <quick|thorough> | --replay <file> | selftest");
         std::process::exit(2);
     }
-    let code = match args[1].as_str() {
+    // a panic that escapes the harness itself (not one of the subject, those are caught where they are judged) is a
+    // machinery failure: exit 2, never a verdict
+    let r = std::panic::catch_unwind(|| match args[1].as_str() {
         "selftest" => selftest::run(true),
         "--replay" => props::replay(&args[2]),
         "--probe" => props::probe(&args[2]),
@@ -21,6 +23,14 @@ fn main() {
                 std::process::exit(2);
             }
             props::run(id, tier)
+        }
+    });
+    let code = match r {
+        Ok(c) => c,
+        Err(e) => {
+            let msg = e.downcast_ref::<String>().cloned().or_else(|| e.downcast_ref::<&str>().map(|s| s.to_string())).unwrap_or_default();
+            eprintln!("MACHINERY FAILURE (not a verdict): the harness panicked: {}", msg);
+            2
         }
     };
     std::process::exit(code);
